@@ -3,7 +3,7 @@ package PKGNAME
 // C02 harness (key structure, continued): NewTrace, from which Setup commits the verifying key.
 // Systems with 0..2 public inputs, 0..2 generic gates (symbolic wire ids and symbolic coefficient
 // ids into a table of symbolic coefficient values), an optional hint instruction in between,
-// 0..1 commitment with a symbolic committed-constraint index, domain of size 4 with symbolic
+// 0..2 commitments, each with a symbolic committed-constraint index, domain of size 4 with symbolic
 // generator w and coset shift u (algebra model):
 //   * selector columns: public rows are (ql,qr,qm,qo,qk) = (-1,0,0,0,0), gate row j holds exactly
 //     the gate's coefficients, padding rows are 0
@@ -27,7 +27,7 @@ func verifHarness_newTrace() {
 	nbPublic := verifChoose(3)
 	nbGates := verifChoose(3)
 	hintAfter := verifChoose(nbGates+2) - 1
-	nbCommit := verifChoose(2)
+	nbCommit := verifChoose(3)
 	spr := &cs.SparseR1CS{}
 	spr.Type = constraint.SystemSparseR1CS
 	spr.Public = make([]string, nbPublic)
@@ -63,15 +63,15 @@ func verifHarness_newTrace() {
 		spr.Instructions = append(spr.Instructions, constraint.PackedInstruction{BlueprintID: 0, StartCallData: start, ConstraintOffset: uint32(j)})
 	}
 	spr.NbConstraints = nbGates
-	committed := 0
+	committed := make([]int, nbCommit)
 	info := constraint.PlonkCommitments{}
-	if nbCommit == 1 {
+	for i := 0; i < nbCommit; i++ {
 		if nbGates == 0 {
 			verifAssume(false)
 		}
-		committed = verifNondetInt("committed")
-		verifAssume(verifAnd(committed >= 0, committed < nbGates))
-		info = constraint.PlonkCommitments{{Committed: []int{committed}, CommitmentIndex: nbGates - 1}}
+		committed[i] = verifNondetInt("committed")
+		verifAssume(verifAnd(committed[i] >= 0, committed[i] < nbGates))
+		info = append(info, constraint.PlonkCommitment{Committed: []int{committed[i]}, CommitmentIndex: nbGates - 1})
 	}
 	spr.CommitmentInfo = info
 	domain := &fft.Domain{Cardinality: verifTSize}
@@ -104,15 +104,15 @@ func verifHarness_newTrace() {
 		}
 	}
 	verifAssert(len(trace.Qcp) == nbCommit, "one Qcp column per commitment")
-	if nbCommit == 1 && len(trace.Qcp) == 1 {
-		q := trace.Qcp[0].Coefficients()
+	for i := 0; i < nbCommit && i < len(trace.Qcp); i++ {
+		q := trace.Qcp[i].Coefficients()
 		var one fr.Element
 		one.SetOne()
 		for row := 0; row < verifTSize; row++ {
-			if row == nbPublic+committed {
-				verifAssert(q[row].Equal(&one), "Qcp is 1 on the committed constraint's row")
+			if row == nbPublic+committed[i] {
+				verifAssert(q[row].Equal(&one), "Qcp_i is 1 on the row of a constraint committed by commitment i")
 			} else {
-				verifAssert(q[row].Equal(&zero), "Qcp is 0 elsewhere")
+				verifAssert(q[row].Equal(&zero), "Qcp_i is 0 elsewhere (also on rows committed by other commitments)")
 			}
 		}
 	}
